@@ -62,6 +62,8 @@ def build(extra_mods=(), force_assumed=()):
     ISO_SLOT = len(chunks)
     chunks.append('')
     mods = list(CORE_MODS) + list(extra_mods)
+    if os.environ.get('VERIF_WASM', '1') == '1' and os.path.exists(os.path.join(REPO, 'src', 'wasm.rs')):
+        mods.append('wasm')
     insertion_only = True
     lost_all = []
     d1 = []
@@ -141,6 +143,8 @@ def build(extra_mods=(), force_assumed=()):
     uses = ''.join('use crate::%s::*;\n' % o for o in mods) + ''.join('pub use crate::%s::*;\n' % o for o in sep)
     iso_chunks.append('pub mod iso {\nuse vstd::prelude::*;\nuse crate::*;\n%sverus! {\n%s\n}\n}\n' % (uses, main_text))
     chunks[ISO_SLOT] = ''.join(iso_chunks)
+    if 'wasm' in mods:
+        chunks.append('pub mod convert {\nuse vstd::prelude::*;\nverus! {\n%s\n}\n}\n' % open(os.path.join(VERIF, 'spec', 'stub_convert.vrs')).read())
     d1_text = ''.join('pub assume_specification [<crate::%s::%s as Clone>::clone] (q: &crate::%s::%s) -> (r: crate::%s::%s)\n    ensures r == *q;\n' % (t['module'], t['d1_type'], t['module'], t['d1_type'], t['module'], t['d1_type']) for t in d1)
     chunks.append('verus! {\n' + d1_text + open(os.path.join(VERIF, 'spec', 'prelude.vrs')).read() + '\n}\nfn main() {}\n')
     text = ''.join(chunks)
